@@ -60,9 +60,10 @@ def compress (s : St) (blk : Array UInt32) : St := Id.run do
 
 def init : St := ⟨0x6a09e667,0xbb67ae85,0x3c6ef372,0xa54ff53a,0x510e527f,0x9b05688c,0x1f83d9ab,0x5be0cd19⟩
 
-partial def blocks (ws : List UInt32) (s : St) : St :=
-  let blk := (ws.take 16).toArray
-  if blk.size < 16 then s else blocks (ws.drop 16) (compress s blk)
+def blocks (ws : List UInt32) (s : St) : St :=
+  if _h : ws.length < 16 then s else blocks (ws.drop 16) (compress s (ws.take 16).toArray)
+termination_by ws.length
+decreasing_by simp only [List.length_drop]; omega
 
 def out32 (x : UInt32) : List UInt8 :=
   [(x >>> 24).toUInt8, (x >>> 16).toUInt8, (x >>> 8).toUInt8, x.toUInt8]
